@@ -529,6 +529,37 @@ def _large_chunk(params, lo, hi):
     return r
 
 
+def _lit_variant(c, vi):
+    """the literals of a clause in another order: 0 ascending by variable, 1 descending, 2 last two swapped"""
+    if vi == 1:
+        return tuple(reversed(c))
+    if vi == 2 and len(c) == 3:
+        return (c[0], c[2], c[1])
+    if vi == 2:
+        return tuple(reversed(c))
+    return c
+
+
+def _litorder_chunk(params, lo, hi):
+    """clause sets of size 1..3 over the 120 clauses of length 2-3 on 5 variables, each with the literals of every clause
+    in three orders (which literals are watched first depends on it), all models requested.
+    index (+offset) = formula*3 + variant; the restart schedule alternates with the formula index"""
+    pid, off = params
+    formulas = formula_list(5, 3, 1, 3, 2)
+    r = new_result()
+    for idx in range(lo + off, hi + off):
+        fi, vi = divmod(idx, 3)
+        f = tuple(_lit_variant(c, vi) for c in formulas[fi])
+        cfg = {"solution_limit": 1000, "luby_factor": 1} if fi % 2 else {"solution_limit": 1000}
+        run_case(pid, f, cfg, r, {})
+        if len(r["samples"]) < 1 and idx == lo + off:
+            r["samples"].append({"clauses": [list(c) for c in f], "config": dict(cfg)})
+        if len(r["violations"]) >= 40 or r["counters"]["hangs"] >= 2:
+            r["capped"] = True
+            break
+    return r
+
+
 def _explicit_chunk(params, lo, hi):
     pid, cases = params
     r = new_result()
@@ -794,6 +825,12 @@ def make_jobs(pid, tier, seed):
     )
     sp = special_cases()
     jobs.append(Job("large_by_construction", len(large_cases()), _large_chunk, pid, chunk=1, describe="implication chains over 70 and 300 variables, exactly-one of 12, pigeonhole 5->4 and 6->5, 3-SAT with a planted model on 30-60 variables: verdict and model count known by construction"))
+    n_lo = len(formula_list(5, 3, 1, 3, 2)) * 3
+    if tier == "thorough":
+        jobs.append(Job("u5_mixed_le3_literal_orders", n_lo, _litorder_chunk, (pid, 0), describe="clause sets of size <=3 over the 120 clauses of length 2-3 on 5 variables x 3 literal orders per clause, all models requested"))
+    else:
+        b = seed % 8
+        jobs.append(Job(f"u5_mixed_le3_literal_orders_block{b}of8", n_lo // 8, _litorder_chunk, (pid, b * (n_lo // 8)), describe="rotating 1/8 block (VERIF_SEED) of: clause sets of size <=3 over the 120 clauses of length 2-3 on 5 variables x 3 literal orders per clause, all models requested"))
     jobs.append(Job("aliased_duplicate_clause", len(formula_list(4, 3, 0, 3, 2)) * 8 * len(ALIAS_CFGS), _alias_chunk, pid, describe="a ternary clause listed twice as one shared list object (and the tuple form) + every set of <=3 clauses of length 2-3 on 4 variables"))
     jobs.append(Job("special_empty", len(sp), _explicit_chunk, (pid, sp), describe="empty formula, empty clause, single units x assumptions"))
     st = structured_cases(tier)
